@@ -359,8 +359,17 @@ def main(argv):
     for (hname, ci, label), inputs in cc_found.items():
         if (hname, ci, label) in failed_keys:
             continue
+        if label.startswith("[C") and not label.startswith(f"[{prop}]"):
+            continue
+        hh = byh[hname]
         if label.startswith("<harness raised"):
             mismatches.append(f"{hname}[{ci}]: native harness raised on {inputs}: {label}")
+        elif hh.subst or hh.stubs:
+            # the obligation was discharged against a callee's *contract*; the real callee does
+            # not honour it for this input: the real code fails the obligation (reproduced)
+            path = write_replay(prop, hname, ci, hh.case_list()[ci], label, inputs,
+                                "found by the native run of the real code (a callee abstracted by its contract in the symbolic run does not honour that contract)", True, functions)
+            violations.append((label, path, True))
         else:
             mismatches.append(f"{hname}[{ci}] '{label}' was discharged but fails natively on {inputs}")
 
